@@ -871,7 +871,8 @@ def process(template_path, repo, meta, twin=None, stub=()):
                 out.append(tmpl[i])
                 i += 1
                 meta["items"].append({"kind": "fn", "file": rel, "container": container, "name": name, "emitted_as": wname,
-                                      "stubbed": "extraction: %s" % e, "rewrites": {"R15": 1}})
+                                      "stubbed": "extraction: %s" % e, "rewrites": {"R15": 1}, "sha256": "", "span": [0, 0],
+                                      "body_lines": 0})
             continue
         m = re.match(r"^\s*//@(fn|struct)\s+(.*)$", ln)
         if not m:
